@@ -15,7 +15,7 @@ import sys
 import time
 
 from kv import gen
-from kv.common import digest, import_klepto, Scratch
+from kv.common import cwd_or_gone, digest, import_klepto, Scratch
 from kv.gen import enc, dec
 
 klepto = import_klepto()
@@ -1276,12 +1276,12 @@ def _short(o):
 
 def run_case(case, prop):
     """run one case with all monitors (and the twins its focus needs); return (runner, violations)"""
-    cwd0 = os.getcwd()
+    cwd0 = cwd_or_gone()
     r1, viol = _run_case(case, prop)
-    if os.getcwd() != cwd0:
+    if cwd_or_gone() != cwd0:
         # (a process that is left in another directory resolves every relative archive name elsewhere)
         viol.append({'property': prop, 'kind': 'working-directory-changed', 'mech': [], 'case': case, 'step': -1,
-                     'msg': 'the history left the process in %s (it started in %s)' % (os.getcwd(), cwd0)})
+                     'msg': 'the history left the process in %s (it started in %s)' % (cwd_or_gone(), cwd0)})
         os.chdir(cwd0)
     return r1, viol
 
@@ -1413,7 +1413,7 @@ def unstorable_case(rng):
 
 def run_unstorable(case):
     viol, cnt = [], {}
-    cwd0 = os.getcwd()
+    cwd0 = cwd_or_gone()
 
     def note(c, n=1):
         cnt[c] = cnt.get(c, 0) + n
@@ -1497,7 +1497,7 @@ def run_unstorable(case):
                     bad('archived-result-changed', 'step %d: archive[%r] is %r, the function returned %r'
                         % (n, rk, arch[rk], rv), n)
                     return viol, cnt
-        if os.getcwd() != cwd0:
+        if cwd_or_gone() != cwd0:
             os.chdir(cwd0)
     return viol, cnt
 
